@@ -10,6 +10,7 @@
 import YashModel.Proc.Model
 import YashModel.Proc.Pipeline
 import YashModel.Proc.ForkLoop
+import YashModel.Proc.WaitTrap
 import YashModel.Proc.Spec
 namespace YashModel.Proc
 open YashModel.Generated.ProcConsts (SIGNAL_EXIT_OFFSET EXIT_FAILURE signalEffects)
@@ -65,6 +66,8 @@ inductive Stmt where
   | kill (sig : String) (k : Nat)
   | tw (sig : String) (n : Nat)
   | tk (gap : Bool) (sig : String) (ms n : Nat)
+  /-- `trap … SIG; ( kill -s SIG $$; [( exit 0 );] exit N ) & wait $!` -/
+  | ts (nested : Bool) (sig : String) (n : Nat)
   | ti
   | gj (k : Nat)
   | wx
@@ -413,6 +416,26 @@ def St.stmt (st : St) : Stmt → St
       else st1
     if (sig == "INT" || sig == "QUIT") && !st.monitor then { st2 with fresh := st2.fresh ++ [pid], status := 0 }
     else { st2.killJob pid (sigNo sig) with status := 0 }
+  | .ts _ sig n0 =>
+    -- the shell traps `sig`, forks a job that sends `sig` to the shell and then exits, and waits for that job:
+    -- model column = a run of the `WaitTrap.lean` system (`wait_while_running` around `wait_for_any_job_or_trap`
+    -- with the job as the sender of the trapped signal) under the block scheduler; spec column = XCU 2.12
+    let n := exitStatusSeen n0
+    let st1 := st.newJob n 0
+    let pid := (st1.jobs.getLast?.map (·.2.1)).getD 0
+    let trapOut := s!"o:trap{sig.toLower}"
+    if st.useSys then
+      let t0 := TSys.start st1.sys pid [sigNo sig] [(pid, sigNo sig)]
+      let t := trun 100000 (mkChoices st.digits st.runs) (parentTurn t0)
+      let st2 := { st1 with sys := t.sys, runs := st1.runs + 1 }
+      match t.out with
+      | some (.trapped σ) => { st2 with status := σ + SIGNAL_EXIT_OFFSET, out := trapOut :: st2.out }
+      | some (.finished _ r) =>
+        -- (not reachable, `sole_job_signal_then_exit_is_trapped`; what the code would do: the job is removed,
+        -- the trap action runs after the built-in)
+        { st2 with status := r.status, active := st2.active.erase pid, out := trapOut :: st2.out }
+      | _ => { st2 with status := 998 }
+    else { st1 with status := Spec.waitInterrupted (sigNo sig), out := trapOut :: st1.out }
   | .ti => { st with status := 0 }
   | .gj _ => { st with status := if st.useSys then waitStatus .echild else Spec.wait none }
   | .wx => { st with status := 2 }
